@@ -463,3 +463,72 @@ def gen_bankrupt_case(rng, name):
 def gen_bankrupt_cases(seed, n, prefix="k"):
     rng = random.Random(seed * 17 + 3)
     return [gen_bankrupt_case(rng, "%s%05d" % (prefix, i)) for i in range(n)]
+
+
+# ---------------------------------------------------------------- C19: tree wiring / universe scoping / lazy children
+def gen_wiring_case(rng, name):
+    """trees assembled in different ways (lists, dicts, strings, lazy_add / eager Security objects, sub-strategies attached
+    later with parent=), shared tickers, strategies that declare no ticker; simple stacks that act on the universe"""
+    g = BTGen(rng)
+    g.wellformed = True
+    n = rng.randint(6, 16)
+    dates = gen_dates(rng, n)
+    nt = rng.randint(3, 6)
+    tickers = list(range(1, nt + 1))
+    prices = [[t, gen_price_col(rng, n, p_nan=0.0, late=rng.random() < 0.15, zero=False)] for t in tickers]
+    g.full = {t for t, col in prices if NAN not in col}
+    next_id = [nt + 1]
+
+    def nid():
+        next_id[0] += 1
+        return next_id[0]
+
+    def sec(t):
+        u = rng.random()
+        if u < 0.4:
+            return ["sec", t, "sec", False, hx(1.0), "str"]
+        if u < 0.65:
+            return ["sec", t, "sec", False, hx(rng.choice([1.0, 2.0])), True]
+        return ["sec", t, "sec", False, hx(rng.choice([1.0, 2.0, 0.5])), False]
+
+    def leaf(depth):
+        decl = rng.sample(tickers, rng.randint(1, nt)) if rng.random() < 0.7 else []
+        kids = [sec(t) for t in decl]
+        st = [g.calendar_scheduler(), ["selectall", False, False]]
+        if rng.random() < 0.3 and decl:
+            st.append(["selectthese", rng.sample(decl, rng.randint(1, len(decl))), False, False])
+        st += [["weighequally"], ["rebalance"]]
+        how = rng.choice(["list", "list", "dict"])
+        return ["strat", nid(), False, kids, st, how]
+
+    def inner(depth):
+        kids = [leaf(depth + 1) if (depth >= 1 or rng.random() < 0.7) else inner(depth + 1) for _ in range(rng.randint(1, 3))]
+        all_strats = True
+        if rng.random() < 0.4:
+            kids.insert(rng.randrange(len(kids) + 1), sec(rng.choice(tickers)))
+            all_strats = False
+        how = rng.choice(["list", "dict", "late"]) if all_strats else rng.choice(["list", "dict"])
+        first = rng.choice([["runonce"], ["runperiod", "daily", True, False, False], ["runperiod", "weekly", True, False, True]])
+        # act on the universe: SelectAll sees the sub-strategy columns (and, for a strategy that declared no ticker, every ticker)
+        if rng.random() < 0.6:
+            st = [first, ["selectall", False, False], ["weighequally"], ["rebalance"]]
+        else:
+            ids = [k[1] for k in kids]
+            ws = [rng.randint(1, 6) / 16.0 for _ in ids]
+            while sum(ws) > 1:
+                ws = [w / 2 for w in ws]
+            st = [first, ["weighspecified", [[i, hx(w)] for i, w in zip(ids, ws)]], ["rebalance"]]
+        return ["strat", nid(), False, kids, st, how]
+    tree = inner(0) if rng.random() < 0.75 else leaf(0)
+    comm = ["none"]
+    if rng.random() < 0.5:
+        comm = rng.choice([["flat", hx(dy(rng, 0, 4, 4))], ["pershare", hx(0.015625)], ["prop", hx(0.001953125)]])
+    return {"name": name, "dates": dates, "intpos": rng.random() < 0.5, "comm": comm, "prices": prices,
+            "bidoffer": None, "coupons": None, "cost_long": None, "cost_short": None, "adata": g.adata,
+            "capital": hx(float(rng.choice([100000, 1000000]))), "tree": tree, "pyseed": rng.randint(0, 1000),
+            "preset_comm": rng.random() < 0.5}
+
+
+def gen_wiring_cases(seed, n, prefix="t"):
+    rng = random.Random(seed)
+    return [gen_wiring_case(rng, "%s%05d" % (prefix, i)) for i in range(n)]
